@@ -25,15 +25,31 @@ Clause → theorem   (model: `Model/Intersect.lean`; carrier: any ordered field)
                                                           design_old_agrees, assert_le_two_counterexample
   probe segment covers the contour (found here)           probe_covers, probeOld_counterexample,
                                                           probeOld_design_counterexample
-  non-crossing abscissae are omitted, crossing ones kept  design_omits_noncrossing, design_reports_crossing,
-                                                          design_omits_outside, design_abscissae_sublist
-  default abscissae span the extent                       linspaceEnd_eq, design_default_span
+  non-crossing abscissae are omitted, crossing ones kept  design_conditions_omission (end to end, an iff: probe
+                                                          ends are the ones computed from the contour),
+                                                          design_conditions_reports_crossing (end to end),
+                                                          design_on_nonvertical_edge;
+                                                          building blocks with the probe ends `ylo`/`yhi` as free
+                                                          hypotheses: design_omits_noncrossing,
+                                                          design_reports_crossing; design_omits_outside,
+                                                          design_abscissae_sublist
+  default abscissae span the extent                       linspaceEnd_eq, linspaceEnd_span_all,
+                                                          design_default_span_all (EVERY count incl. 0 and 1),
+                                                          design_default_span (count n+2 only)
   swap_axis = exchanging the coordinates                  design_swap_equiv
+
+Hypotheses of the end-to-end theorems (`design_conditions_top_ordinate`, `design_conditions_omission`,
+`design_conditions_reports_crossing`): `0 ≤ tenth` (the code's 0.1) and `hflat`: the contour has two
+vertices with different ordinates. A contour whose vertices all share one ordinate has a probe segment
+of length zero, every system is singular and nothing is reported; it is not a closed contour with an
+interior, the harness counts such inputs (`design:flat_polygon_out_of_scope`) and evaluates no clause
+on them.
 
 What is *not* covered by a theorem: points of the contour on edges parallel to the probe line
 (vertical edges at exactly the requested abscissa; their end points belong to the neighbouring
-edges), and the rounding of the doubles (the theorems are over an ordered field; the harness
-compares the Float execution of the model with its Rat execution and with the real code).
+edges), that every default abscissa crosses the contour (observed only), and the rounding of the
+doubles (the theorems are over an ordered field; the harness compares the Float execution of the
+model with its Rat execution and with the real code).
 -/
 import VirVerif.Model.Intersect
 import Mathlib.Algebra.Order.Field.Basic
@@ -727,6 +743,88 @@ theorem design_conditions_top_ordinate (tenth small : α) (ofNat : Nat → α) (
   obtain ⟨b1, b2⟩ := onSeg_snd_bounds S.closed S.ylo S.yhi hb s hs (q.1, y') hon
   exact design_top_ordinate_geometric S.closed S.ylo S.yhi S.steps q hq hlt s hs hnv y' hon b1 b2
 
+/-- a pair of segments is only ever reported when it is not parallel -/
+theorem segInter_some_det (s1 s2 : Seg α) (p : α × α) (h : segInter s1 s2 = some p) :
+    segDet s1 s2 ≠ 0 := by
+  unfold segInter at h
+  split_ifs at h with hb
+  cases hs : segSolve s1 s2 with
+  | none => simp [hs] at h
+  | some r => exact (segSolve_spec s1 s2 r hs).1
+
+/-- every returned design condition lies on a *non-vertical* edge of the closed polygon (an edge
+parallel to the probe line is never reported: its system is singular) -/
+theorem design_on_nonvertical_edge (closed : List (α × α)) (ylo yhi : α) (steps : List α) (q : α × α)
+    (h : q ∈ designCore closed ylo yhi steps) :
+    ∃ s ∈ segs closed, s.px ≠ s.qx ∧ OnSeg s q := by
+  obtain ⟨x2, _, hq⟩ := (design_mem closed ylo yhi steps q).mp h
+  obtain ⟨h1, ⟨p, hp, hpq⟩, _⟩ := (designStep_eq_some closed ylo yhi x2 q).mp hq
+  obtain ⟨s1, hs1, s2, hs2, hsi⟩ := (intersect_mem_iff _ _ p).mp hp
+  rw [segs_probe, List.mem_singleton] at hs2
+  subst hs2
+  have hdet := segInter_some_det _ _ p hsi
+  obtain ⟨o1, o2⟩ := segInter_sound _ _ p hsi
+  have hp1 : p.1 = x2 := onProbe_fst x2 ylo yhi p o2
+  have hpq' : p = q := by
+    ext
+    · rw [hp1, h1]
+    · exact hpq
+  refine ⟨s1, hs1, ?_, hpq' ▸ o1⟩
+  intro heq
+  apply hdet
+  rw [segDet_probe, heq]
+  ring
+
+/-- **design_conditions_omission** (end to end, the omission clause composed with `probe_covers`
+exactly as `design_conditions_top_ordinate` does for the top-ordinate clause): for a contour whose
+ordinates are not all equal and a non-negative margin factor, a requested abscissa `x2` is absent
+from the result **iff** no non-vertical edge of the closed polygon has a point at `x2`. No
+hypothesis on the probe ends: `S.ylo`, `S.yhi` are what `designSetup` computes from the contour. -/
+theorem design_conditions_omission (tenth small : α) (ofNat : Nat → α) (coords : List (α × α))
+    (spec : StepSpec α) (swap : Bool) (S : DesignSetup α)
+    (h : designSetup tenth small ofNat coords spec swap = some S) (ht : 0 ≤ tenth)
+    (hflat : ∃ a ∈ S.closed, ∃ b ∈ S.closed, a.2 < b.2)
+    (x2 : α) (hx : x2 ∈ S.steps) :
+    (∀ y, (x2, y) ∉ designCore S.closed S.ylo S.yhi S.steps) ↔
+      ∀ s ∈ segs S.closed, s.px ≠ s.qx → ∀ y', ¬ OnSeg s (x2, y') := by
+  obtain ⟨lo, hi, _, hpl, hcl, _⟩ := designSetup_spec tenth small ofNat coords spec swap S h
+  have hsnd : S.closed.map Prod.snd = closePoly (coords.map (if swap then Prod.fst else Prod.snd)) := by
+    rw [hcl]
+    apply List.map_snd_zip
+    exact le_of_eq (closePoly_length _ _ coords).symm
+  obtain ⟨hcov, hnd⟩ := probe_covers tenth _ S.ylo S.yhi hpl ht
+  have hb : ∀ v ∈ S.closed, S.ylo ≤ v.2 ∧ v.2 ≤ S.yhi := by
+    intro v hv
+    apply hcov
+    rw [← hsnd]
+    exact List.mem_map.mpr ⟨v, hv, rfl⟩
+  have hlt : S.ylo < S.yhi := by
+    apply hnd
+    obtain ⟨a, ha, b, hb', hab⟩ := hflat
+    rw [← hsnd]
+    exact ⟨a.2, List.mem_map.mpr ⟨a, ha, rfl⟩, b.2, List.mem_map.mpr ⟨b, hb', rfl⟩, hab⟩
+  constructor
+  · intro hom s hs hnv y' hon
+    obtain ⟨b1, b2⟩ := onSeg_snd_bounds S.closed S.ylo S.yhi hb s hs (x2, y') hon
+    exact design_omits_noncrossing S.closed S.ylo S.yhi S.steps x2 hx hlt hom s hs hnv y' b1 b2 hon
+  · intro hno y hy
+    obtain ⟨s, hs, hnv, hon⟩ := design_on_nonvertical_edge S.closed S.ylo S.yhi S.steps (x2, y) hy
+    exact hno s hs hnv y hon
+
+/-- **design_conditions_reports_crossing** (end to end): a requested abscissa at which some
+non-vertical edge of the closed polygon has a point is kept. -/
+theorem design_conditions_reports_crossing (tenth small : α) (ofNat : Nat → α) (coords : List (α × α))
+    (spec : StepSpec α) (swap : Bool) (S : DesignSetup α)
+    (h : designSetup tenth small ofNat coords spec swap = some S) (ht : 0 ≤ tenth)
+    (hflat : ∃ a ∈ S.closed, ∃ b ∈ S.closed, a.2 < b.2)
+    (x2 : α) (hx : x2 ∈ S.steps)
+    (s : Seg α) (hs : s ∈ segs S.closed) (hnv : s.px ≠ s.qx) (y' : α) (hon : OnSeg s (x2, y')) :
+    ∃ y, (x2, y) ∈ designCore S.closed S.ylo S.yhi S.steps := by
+  by_contra hne
+  have hom : ∀ y, (x2, y) ∉ designCore S.closed S.ylo S.yhi S.steps := fun y hy => hne ⟨y, hy⟩
+  exact (design_conditions_omission tenth small ofNat coords spec swap S h ht hflat x2 hx).mp hom
+    s hs hnv y' hon
+
 /-- **design_swap_equiv**: `swap_axis=True` is the same as exchanging the two coordinate columns. -/
 theorem design_swap_equiv (tenth small : α) (ofNat : Nat → α) (coords : List (α × α))
     (spec : StepSpec α) :
@@ -836,6 +934,73 @@ theorem design_default_span (tenth small : α) (coords : List (α × α)) (swap 
         · rw [← e1] at a; linarith
         · rw [← e2] at b; linarith
 
+/-- `np.linspace(a, b, n)` for EVERY count `n` (0: no abscissa, 1: `[a]`, `n ≥ 2`: from `a` to `b`):
+there are exactly `n` abscissae, all in `[a, b]`; the first is `a` as soon as there is one, the
+last is `b` as soon as there are two -/
+theorem linspaceEnd_span_all (a b : α) (n : Nat) (hab : a ≤ b) :
+    (linspaceEnd (fun k : Nat => (k : α)) a b n).length = n ∧
+    (1 ≤ n → (linspaceEnd (fun k : Nat => (k : α)) a b n).head? = some a) ∧
+    (2 ≤ n → (linspaceEnd (fun k : Nat => (k : α)) a b n).getLast? = some b) ∧
+    ∀ x ∈ linspaceEnd (fun k : Nat => (k : α)) a b n, a ≤ x ∧ x ≤ b := by
+  match n with
+  | 0 => simp [linspaceEnd]
+  | 1 =>
+    refine ⟨by simp [linspaceEnd], fun _ => by simp [linspaceEnd], fun h => absurd h (by decide), ?_⟩
+    intro x hx
+    simp [linspaceEnd] at hx
+    rw [hx]
+    exact ⟨le_refl a, hab⟩
+  | m + 2 =>
+    obtain ⟨l1, l2, l3, l4⟩ := linspaceEnd_span a b m hab
+    exact ⟨l1, fun _ => l2, fun _ => l3, l4⟩
+
+/-- **design_default_span_all**: `design_default_span` for EVERY count (`steps=None` = 10, or any int
+`n ≥ 0`, including 0 and 1): exactly `n` abscissae, all within the contour's extent `[xmin, xmax]`;
+for `n ≥ 1` the first is `xmin + s`, for `n ≥ 2` the last is `xmax - s`, `s = small * (xmax - xmin)`
+(`n = 1` gives the single abscissa `xmin + s`, as `np.linspace(lo, hi, 1) = [lo]`). -/
+theorem design_default_span_all (tenth small : α) (coords : List (α × α)) (swap : Bool) (n : Nat)
+    (S : DesignSetup α) (spec : StepSpec α) (hspec : spec = .count n ∨ (spec = .default ∧ n = 10))
+    (h : designSetup tenth small (fun k : Nat => (k : α)) coords spec swap = some S)
+    (hs0 : 0 ≤ small) (hs1 : small ≤ 1 / 2) :
+    ∃ xmin xmax,
+      listMin (closePoly (coords.map (if swap then Prod.snd else Prod.fst))) = some xmin ∧
+      listMax (closePoly (coords.map (if swap then Prod.snd else Prod.fst))) = some xmax ∧
+      S.steps.length = n ∧
+      (1 ≤ n → S.steps.head? = some (xmin + small * (xmax - xmin))) ∧
+      (2 ≤ n → S.steps.getLast? = some (xmax - small * (xmax - xmin))) ∧
+      ∀ x ∈ S.steps, xmin ≤ x ∧ x ≤ xmax := by
+  obtain ⟨lo, hi, hdl, _, _, hst⟩ := designSetup_spec tenth small _ coords spec swap S h
+  have hsteps : S.steps = linspaceEnd (fun k : Nat => (k : α)) lo hi n := by
+    rcases hspec with rfl | ⟨rfl, rfl⟩
+    · exact hst
+    · exact hst
+  unfold defaultLimits at hdl
+  cases hmin : listMin (closePoly (coords.map (if swap then Prod.snd else Prod.fst))) with
+  | none => simp [hmin] at hdl
+  | some xmin =>
+    cases hmax : listMax (closePoly (coords.map (if swap then Prod.snd else Prod.fst))) with
+    | none => simp [hmin, hmax] at hdl
+    | some xmax =>
+      simp only [hmin, hmax, Option.some.injEq, Prod.mk.injEq] at hdl
+      obtain ⟨e1, e2⟩ := hdl
+      obtain ⟨_, lole⟩ := listMin_spec _ xmin hmin
+      obtain ⟨himem, _⟩ := listMax_spec _ xmax hmax
+      have hmm : xmin ≤ xmax := lole xmax himem
+      have hd : 0 ≤ xmax - xmin := sub_nonneg.mpr hmm
+      have hlohi : lo ≤ hi := by rw [← e1, ← e2]; nlinarith
+      obtain ⟨l1, l2, l3, l4⟩ := linspaceEnd_span_all lo hi n hlohi
+      refine ⟨xmin, xmax, rfl, rfl, ?_, ?_, ?_, ?_⟩
+      · rw [hsteps]; exact l1
+      · intro hn; rw [hsteps, l2 hn, ← e1]
+      · intro hn; rw [hsteps, l3 hn, ← e2]
+      · intro x hx
+        rw [hsteps] at hx
+        obtain ⟨a, b⟩ := l4 x hx
+        have : 0 ≤ small * (xmax - xmin) := mul_nonneg hs0 hd
+        constructor
+        · rw [← e1] at a; linarith
+        · rw [← e2] at b; linarith
+
 /-! ### the two defects of the code before the repair, as theorems about its model -/
 
 /-- triangle `(0,0),(2,0),(1,1)`, closed -/
@@ -898,5 +1063,19 @@ example : ∃ S, designSetup (1/10 : ℚ) (1/10000) (fun k : Nat => (k : ℚ)) [
     (.count 3) false = some S ∧ (∃ a ∈ S.closed, ∃ b ∈ S.closed, a.2 < b.2) ∧ S.ylo < S.yhi := by
   refine ⟨⟨tri, [1/5000, 1, 9999/5000], -1/10, 11/10⟩, by decide +kernel, ?_, by norm_num⟩
   exact ⟨(0, 0), by simp [tri], (1, 1), by simp [tri], by norm_num⟩
+
+/-- counts 0 and 1 (`design_default_span_all`): no abscissa; the single abscissa `xmin + s` -/
+example : designConditions (1/10 : ℚ) (1/10000) (fun k : Nat => (k : ℚ)) [(0, 0), (2, 0), (1, 1)]
+    (.count 0) false = some [] ∧
+    designConditions (1/10 : ℚ) (1/10000) (fun k : Nat => (k : ℚ)) [(0, 0), (2, 0), (1, 1)]
+    (.count 1) false = some [(1/5000, 1/5000)] := by
+  decide +kernel
+
+/-- omission end to end (`design_conditions_omission`): abscissa 3 is requested, no edge of the
+triangle has a point there, and it is absent; abscissa 1/2 is crossed and kept -/
+example : ∃ S, designSetup (1/10 : ℚ) (1/10000) (fun k : Nat => (k : ℚ)) [(0, 0), (2, 0), (1, 1)]
+    (.list [1/2, 3]) false = some S ∧ (3 : ℚ) ∈ S.steps ∧
+    designCore S.closed S.ylo S.yhi S.steps = [(1/2, 1/2)] := by
+  refine ⟨⟨tri, [1/2, 3], -1/10, 11/10⟩, by decide +kernel, by simp, by decide +kernel⟩
 
 end VirVerif.C17
